@@ -18,8 +18,16 @@ GInit == /\ MInit
 GNext == FALSE /\ UNCHANGED gvars
 GSpec == GInit /\ [][GNext]_gvars
 Expect == [i \in 1..Total |-> <<PartOf(i - 1), LocalOf(i - 1)>>]
+\* Merge!Rebuild: the same stores merged again in reversed order into the same path - flat index -> (ORIGINAL part
+\* number, local index).  Generated for explicit lists of at least two inputs without associated stores.
+RebuildCase == Valid(case) /\ fault = 0 /\ form = "list" /\ ~assoc /\ N >= 2
+RECURSIVE RevPrefix(_)
+RevPrefix(k) == IF k = 0 THEN 0 ELSE RevPrefix(k - 1) + case[N + 1 - k].n      \* trajectories in the first k parts of the reversed list
+RevPart(i) == CHOOSE k \in 1..N : RevPrefix(k - 1) <= i /\ i < RevPrefix(k)
+Expect2 == [i \in 1..Total |-> <<N + 1 - RevPart(i - 1), (i - 1) - RevPrefix(RevPart(i - 1) - 1)>>]
 Out == [ins |-> case, fault |-> fault, form |-> form, assoc |-> assoc, asplit |-> asplit, asizes |-> (IF asplit = "resplit" THEN Reversed(Sizes) ELSE Sizes),
         valid |-> Valid(case), indexed |-> Indexed(case), total |-> Total,
-        expect |-> IF Valid(case) THEN Expect ELSE <<>>]
+        expect |-> IF Valid(case) THEN Expect ELSE <<>>,
+        rebuild |-> RebuildCase, expect2 |-> IF RebuildCase THEN Expect2 ELSE <<>>]
 Emit == PrintT("@@" \o ToJson(Out))
 =============================================================================
